@@ -219,6 +219,7 @@ func vfC12Run(v *vfT, c vfC12Case) {
 	var all []vfFamBFinding
 	dcs := 0
 	afterRemoveOrReplace, special := false, false
+	rejectedWhileNone := false
 	trackN := 0
 	newTrack := func(kind, rid string) (TrackLocal, error) {
 		trackN++
@@ -318,6 +319,28 @@ func vfC12Run(v *vfT, c vfC12Case) {
 			if _, err = pc.CreateDataChannel(fmt.Sprintf("dc%d", i), nil); err == nil {
 				dcs++
 			}
+		case "dcRejected":
+			// a CreateDataChannel call the API documents as refused: no channel comes into being
+			label, opts := fmt.Sprintf("dcx%d", i), &DataChannelInit{}
+			switch op.A % 3 {
+			case 0: // both reliability limits
+				lifetime, retransmits := uint16(100), uint16(3)
+				opts.MaxPacketLifeTime, opts.MaxRetransmits = &lifetime, &retransmits
+			case 1: // protocol longer than 65535 bytes
+				proto := strings.Repeat("p", 65536)
+				opts.Protocol = &proto
+			default: // label longer than 65535 bytes
+				label = strings.Repeat("l", 65536)
+			}
+			if _, e := pc.CreateDataChannel(label, opts); e == nil {
+				dcs++ // not refused after all: then it is a channel like any other
+				v.Label("rejected-datachannel-call-succeeded")
+			} else {
+				v.Label("datachannel-call-rejected")
+				if dcs == 0 && !c.AlwaysDC {
+					rejectedWhileNone = true
+				}
+			}
 		case "negotiate":
 			if peer == nil {
 				if peer, err = vfFamBNewPC(vfFamBPCOpts{ME: c.ME}); err != nil {
@@ -342,7 +365,10 @@ func vfC12Run(v *vfT, c vfC12Case) {
 		}
 		offerAndCheck(step)
 	}
-	if special {
+	if rejectedWhileNone {
+		v.Label("history:rejected-datachannel-before-any-channel-exists")
+	}
+	if special || rejectedWhileNone {
 		v.NonTrivial()
 	}
 	vfFamBReport(v, all)
@@ -355,7 +381,7 @@ func vfC12Gen(v *vfT) vfC12Case {
 	c.AlwaysDC = rapid.IntRange(0, 4).Draw(r, "alwaysDC") == 0
 	n := rapid.IntRange(1, 9).Draw(r, "nOps")
 	for i := 0; i < n; i++ {
-		op := vfC12Op{Op: rapid.SampledFrom([]string{"addTrack", "addTrack", "addKind", "addKind", "addFromTrack", "addFromTrack", "removeTrack", "replaceTrack", "dc", "negotiate"}).Draw(r, "op")}
+		op := vfC12Op{Op: rapid.SampledFrom([]string{"addTrack", "addTrack", "addKind", "addKind", "addFromTrack", "addFromTrack", "removeTrack", "replaceTrack", "dc", "dcRejected", "negotiate"}).Draw(r, "op")}
 		switch op.Op {
 		case "addTrack":
 			op.Kind = rapid.SampledFrom([]string{"audio", "video"}).Draw(r, "kind")
@@ -373,6 +399,8 @@ func vfC12Gen(v *vfT) vfC12Case {
 			}
 		case "removeTrack":
 			op.A = rapid.IntRange(0, 5).Draw(r, "a")
+		case "dcRejected":
+			op.A = rapid.IntRange(0, 2).Draw(r, "reason")
 		case "replaceTrack":
 			op.A = rapid.IntRange(0, 5).Draw(r, "a")
 			op.Nil = rapid.IntRange(0, 3).Draw(r, "nil") == 0
@@ -384,7 +412,7 @@ func vfC12Gen(v *vfT) vfC12Case {
 
 func TestVerif_C12_Histories(t *testing.T) {
 	vfProperty(t, "C12", vfOpts{
-		Rule: "non-trivial = some successful CreateOffer of the history came after a successful RemoveTrack/ReplaceTrack, or described a sender with an RTX or FEC SSRC, or a simulcast sender",
+		Rule: "non-trivial = some successful CreateOffer of the history came after a successful RemoveTrack/ReplaceTrack, or described a sender with an RTX or FEC SSRC, or a simulcast sender, or the history has a refused CreateDataChannel call (both reliability limits, protocol or label over 65535 bytes) while no data channel exists",
 		Assumptions: []string{
 			"Unified Plan; every MediaEngine configuration has at least one audio and one video codec (a transceiver of a kind without codecs is C06's rejected-section case)",
 			"msid/SSRC clauses are asserted for transceivers whose direction is sendrecv/sendonly and whose sender has a track; SSRC or msid lines on other sections are counted, not asserted",
